@@ -30,6 +30,9 @@ pub fn gen_long_history(check: &str, seed: u64, tier: Tier) -> Run {
         binders: w.chance(3, 4),
     };
     run.ops = gen_history(&mut w, &p, true);
+    if w.chance(1, 4) {
+        super::sesscc::insert_symmetry_bias(&mut run.ops, &mut w);
+    }
     let mut f = Rng::stream(seed, "faults");
     if f.chance(1, 2) {
         run.set("hash_seed", (f.next() >> 1) as i64 | 1);
